@@ -60,18 +60,19 @@ CLAIMS = {
             "weights/scale/var within 1e-9 of the unchunked sequential run, same sweep count (knife-edge relaxation only at "
             "var~tol), a repeat with the same schedule bitwise identical, visit-once through the real split(), and agreement "
             "with a dense numpy implementation of the documented procedure; thread pools and stdlib-pickle process pools; "
-            "the CLI with a blacklist BED file; the path rewritten between balancing runs of one process.",
+            "the CLI with a blacklist BED file; the path rewritten between balancing runs of one process; an open of the file "
+            "failing once inside a run (driver or worker): the run may fail, it never returns other weights.",
             "the dense reference is this repository's reading of the documented procedure; one known finding (ignore_diags=0)",
             SIM + "seeded completion orders over real pipeline code vs sequential reference"),
     "C13": ("fault_enumeration", "4 (C13)",
             "Per workload (populated multi-collection file + one producer: ordered/unordered create, merge, coarsen with or "
             "without workers, scool) every F1 placement (7 kinds x chunk x first/mid/last), every F2 index, every F4 open "
-            "index and every F6 task index is injected, F3 interrupts at stratified line events (all of them in the "
+            "index, every F9 attribute-write index, every F10 flush index and every F6 task index is injected, F3 interrupts at stratified line events (all of them in the "
             "thorough tier for small workloads), and the file is examined as a restarted process would see it after every "
             "close (F5): destination not recognised unless complete, neighbours read back unchanged, then the operation is "
             "re-issued fault-free and must succeed.",
             "process kill modelled at close boundaries; byte-level faults below libhdf5 not modelled; workloads sampled, placements enumerated",
-            SIM + "fault enumeration (F1-F6) + crash-boundary snapshots over seeded workloads"),
+            SIM + "fault enumeration (F0-F10) + crash-boundary snapshots over seeded workloads"),
     "C15": ("exploration", "4 (C15)",
             "Seeded histories of create(a|w)/cp/mv/ln(hard, soft, external)/plant/failed creates over up to three files "
             "against an HDF5 link-tree reference model; after every step listing, recognition truth table, read-back of "
